@@ -29,6 +29,9 @@ CONSTANTS
                        \* repair); "idmode" -- also when the mode under the same id changes; "item" -- whenever the stored
                        \* item differs from the one in the document (same id with another mode or other content, an item
                        \* with the empty id, an item with the empty id that was removed)
+  IncOf(_),            \* incarnation number the host gives the key with a guid (0: none)
+  KeepHigherIncarnation, \* TRUE: a design variant in which the key in memory is not replaced by one of a lower incarnation
+  StateEarly,          \* TRUE: a design variant that stores the reported state before the key step of a poll
   InitScenarios,       \* subset of {"fresh", "haskey", "unreadable", "rotated"}
   InitDocs,            \* status documents the host may start with
   MaxReconf, MaxFaults, MaxCrash, MaxDamage, MaxNotify,
@@ -92,6 +95,12 @@ C09_KeyOn(m, d, latched) ==
   IF IsDisabled(StateOf(d)) THEN m.key = "none" ELSE (latched # "none" /\ m.key = latched)
 C09_StateOn(m, d) == m.state = StateOf(d)
 C09_PolicyOn(pol, changed, d) == changed => \A e \in Eps : pol[e] = Intercept(d, e)
+\* the interception in force (last update per endpoint) is the one prescribed for the reported state in force.  The
+\* modes are a function of every state but "disabled" (documents that report the channel disabled may differ in them,
+\* and the statement ties the policy to the changes of the state): there it must at least have been applied
+C09_PolicyInForceOn(pol, d) ==
+  IF IsDisabled(StateOf(d)) THEN \A e \in Eps : pol[e] # "unset"
+  ELSE \A e \in Eps : pol[e] = Intercept(d, e)
 \* C08
 FileIn(f, g) == IF g \in DOMAIN f.final THEN f.final[g] ELSE "none"
 C08_LatchedIsRecoverableOn(f, latched, damaged) ==
@@ -136,6 +145,11 @@ PolicyPc == [ws |-> "Policy_ws", imds |-> "Policy_imds", ga |-> "Policy_ga"]
 AfterRules(ep, changed) ==
   CASE ep = "ws" -> "RuleId_imds" [] ep = "imds" -> "RuleId_ga"
     [] ep = "ga" -> IF changed THEN "DumpRules" ELSE "NeedKey"
+
+\* the key the actor holds after being told to use g
+Published(g) ==
+  IF KeepHigherIncarnation /\ mem.key # "none" /\ IncOf(g) # 0 /\ IncOf(mem.key) # 0 /\ IncOf(g) < IncOf(mem.key)
+  THEN mem.key ELSE g
 
 \* ---- the poll loop ---------------------------------------------------------------------------------
 MkKeyDir ==
@@ -191,8 +205,12 @@ NeedKey ==
        pc' = IF ~IsDisabled(st) /\ (ng = "none" \/ ng # mem.key)
              THEN (IF ng # "none" THEN "FetchLocal" ELSE "Acquire")
              ELSE "UpdChannelState"
+  /\ IF StateEarly
+     THEN /\ mem' = [mem EXCEPT !.state = StateOf(Status.doc)]
+          /\ loc' = [loc EXCEPT !.changed = (mem.state # StateOf(Status.doc))]
+     ELSE UNCHANGED <<mem, loc>>
   /\ Did("NeedKey", "-", "none")
-  /\ UNCHANGED <<host, fs, loc, mem, policy, gh>>
+  /\ UNCHANGED <<host, fs, policy, gh>>
 
 FetchLocal ==    \* look for <named guid>.key in the key directory, read and parse it
   /\ pc = "FetchLocal"
@@ -203,7 +221,7 @@ FetchLocal ==    \* look for <named guid>.key in the key directory, read and par
 
 UpdateKeyLocal ==
   /\ pc = "UpdateKeyLocal"
-  /\ mem' = [mem EXCEPT !.key = loc.key]
+  /\ mem' = [mem EXCEPT !.key = Published(loc.key)]
   /\ pc' = "UpdChannelState" /\ Did("UpdateKeyMem", "local", loc.key)
   /\ UNCHANGED <<host, fs, loc, policy, gh>>
 
@@ -262,16 +280,18 @@ Attest(o) ==
 
 UpdateKeyMem ==
   /\ pc = "UpdateKeyMem"
-  /\ mem' = [mem EXCEPT !.key = loc.key]
+  /\ mem' = [mem EXCEPT !.key = Published(loc.key)]
   /\ pc' = "UpdChannelState" /\ Did("UpdateKeyMem", "attested", loc.key)
   /\ UNCHANGED <<host, fs, loc, policy, gh>>
 
 UpdChannelState ==
   /\ pc = "UpdChannelState"
   /\ LET st == StateOf(Status.doc) IN
-       IF mem.state # st
-       THEN mem' = [mem EXCEPT !.state = st] /\ loc' = [loc EXCEPT !.changed = TRUE] /\ pc' = "Policy_ws"
-       ELSE pc' = "Sleep" /\ UNCHANGED <<mem, loc>>
+       IF StateEarly
+       THEN pc' = (IF loc.changed THEN "Policy_ws" ELSE "Sleep") /\ UNCHANGED <<mem, loc>>
+       ELSE IF mem.state # st
+            THEN mem' = [mem EXCEPT !.state = st] /\ loc' = [loc EXCEPT !.changed = TRUE] /\ pc' = "Policy_ws"
+            ELSE pc' = "Sleep" /\ UNCHANGED <<mem, loc>>
   /\ Did("UpdChannelState", "-", "none")
   /\ UNCHANGED <<host, fs, policy, gh>>
 
@@ -341,6 +361,15 @@ Rotate ==
   /\ Did("Rotate", "-", "none")
   /\ UNCHANGED <<fs, pc, loc, mem, policy>>
 
+\* the host goes back to a key it issued earlier and the guest still holds
+Relatch ==
+  /\ HostTurn /\ gh.reconfs < MaxReconf
+  /\ \E g \in host.issued : /\ g # host.latched /\ fs.final[g] = "key" /\ g \notin gh.damaged
+                             /\ host' = [host EXCEPT !.named = g, !.latched = g]
+                             /\ Did("Relatch", "-", g)
+  /\ gh' = [gh EXCEPT !.reconfs = @ + 1, !.clean = FALSE]
+  /\ UNCHANGED <<fs, pc, loc, mem, policy>>
+
 \* the process dies at any instant: volatile state is lost, the key store and the host are kept
 Crash ==
   /\ pc # "Dead" /\ gh.crashes < MaxCrash
@@ -368,7 +397,7 @@ Next ==
   \/ \E o \in {"ok", "err"} : StoreCreateTmp(o)
   \/ \E o \in {"ok", "err", "lost"} : Attest(o)
   \/ \E n \in BOOLEAN : Sleep(n)
-  \/ Reconfigure \/ Rotate \/ Crash \/ Damage \/ Restart
+  \/ Reconfigure \/ Rotate \/ Relatch \/ Crash \/ Damage \/ Restart
 
 Spec == Init /\ [][Next]_vars
 FairSpec == Spec /\ WF_vars(AgentOk) /\ WF_vars(Restart)
@@ -394,7 +423,8 @@ LatchedIsRecoverable == C08_LatchedIsRecoverableOn(fs, host.latched, gh.damaged)
 NoCorruptFinalName == C08_NoCorruptFinalNameOn(fs, gh.damaged)
 \* the host is asked to latch a key only after the key was stored and read back identically by this process
 AttestOnlyAfterStoreAndReadBack == act.a = "Attest" => act.g \in gh.readback
-AttestStep == [][host'.latched # host.latched /\ host'.latched # "none" => host'.latched \in gh.readback]_vars
+AttestStep == [][(host'.latched # host.latched /\ host'.latched # "none" /\ act'.a # "Relatch")
+                    => host'.latched \in gh.readback]_vars
 \* a good local copy of the key the host names is used; no new key is requested
 RestartUsesLocal == pc = "Acquire" => (Status.named = "none" \/ FileIn(fs, Status.named) # "key")
 \* temp-then-rename: a final name only ever receives a complete file
@@ -410,6 +440,7 @@ Converged ==
     /\ C09_KeyOn(mem, host.doc, host.latched)
     /\ C09_StateOn(mem, host.doc)
     /\ C09_PolicyOn(policy, loc.changed, host.doc)
+    /\ C09_PolicyInForceOn(policy, host.doc)
 \* a poll whose status request fails or returns an invalid document changes nothing
 FailedPollChangesNothing ==
   [][(pc = "GetStatus" /\ pc' = "Sleep") => UNCHANGED <<mem, fs, policy>>]_vars
@@ -419,6 +450,7 @@ NoKeyWhenDisabled == (pc = "Sleep" /\ IsDisabled(mem.state)) => mem.key = "none"
 \* liveness: once the environment leaves the agent alone it settles on the host's view
 Settled == pc = "Sleep" =>
              /\ C09_RulesOn(mem, host.doc) /\ C09_KeyOn(mem, host.doc, host.latched) /\ C09_StateOn(mem, host.doc)
+             /\ C09_PolicyInForceOn(policy, host.doc)
 EventuallySettled == <>[]Settled
 EventuallyPolls == []<>(pc = "Sleep")
 =============================================================================
